@@ -40,7 +40,10 @@ Walk(e, i, rd, sc) ==
         good == /\ pre /\ ~IsPanic(m.res)
                 /\ IF expOk THEN /\ m.res.ok = 1 /\ m.res.value = vis.v /\ m.rd_after = vis.pos          \* not one byte more than the message
                                  /\ m.rem_off = sc + need /\ m.rem_len = avail - need /\ m.leaves = lv
-                   ELSE /\ m.res.ok = 0 /\ m.res.err = want.err
+                   ELSE /\ m.res.ok = 0
+                        \* a failing reader or a short scratch must produce an error (the statement names no kind); a damaged
+                        \* stream with everything available must fail exactly as slice decoding does
+                        /\ ((vis.ok \/ full.ok) \/ vis.err = "Custom" \/ m.res.err = want.err)
                         /\ (full.ok => m.rd_after <= full.pos)                                           \* no over-read on the failing path either
                         /\ m.rd_after <= Len(eff)
     IN IF ~good THEN [bad |-> i, want |-> want]
